@@ -162,11 +162,19 @@ impl Mon {
                     if let Some(exp) = self.backoff.get(&(t.clone(), *p))
                         && now < *exp
                     {
-                        self.viol.push((
-                            "C28",
-                            "backed-off-peer-added-to-mesh".into(),
-                            format!("{who} is backed off for {t} until +{}s (now +{}s) and was added to the mesh ({cause})", exp.as_secs(), now.as_secs()),
-                        ));
+                        let what = format!("{who} is backed off for {t} until +{}s (now +{}s) and was added to the mesh ({cause})", exp.as_secs(), now.as_secs());
+                        self.viol.push(("C28", "backed-off-peer-added-to-mesh".into(), what.clone()));
+                        // C32 "treats it as backed off (refusing to graft it) at least until that duration has elapsed":
+                        // the same observation, judged for the behaviour as a whole (second stage of ./check C32)
+                        self.viol.push(("C32", "backed-off-peer-grafted-before-expiry".into(), what));
+                    }
+                    // a heartbeat decides on the scores it has itself just brought up to date: a peer it newly
+                    // grafts does not come out of that very heartbeat with a negative score
+                    if cause == "heartbeat"
+                        && let Some(sc) = snap.score.get(p)
+                        && *sc < 0.0
+                    {
+                        self.viol.push(("C28", "negative-score-peer-added-by-heartbeat".into(), format!("{who} was added to the mesh of {t} by a heartbeat after which its score is {sc}")));
                     }
                     if before.len() >= self.high && self.step_grafts.iter().any(|(q, tt)| q == p && tt == t) {
                         self.viol.push(("C28", "graft-accepted-above-mesh-n-high".into(), format!("GRAFT from {who} for {t} accepted although the mesh had {} >= mesh_n_high {} members", before.len(), self.high)));
@@ -360,6 +368,7 @@ fn run_case(rng: &mut Rng) -> Out {
     let mut sig = Sig::new().u64(mesh_n as u64).u64(high as u64).u64(n_peers as u64);
     let mut fanout_publishes = 0u64;
     let mut seqno = 0u64;
+    let mut ihave_seq = 0u64;
     // drains what raw peers received: PRUNEs sent by the node start a backoff in the ledger
     let drain = |rig: &mut Rig, mon: &Rc<RefCell<Mon>>| {
         let _now = gs::verif::clock::offset();
@@ -385,7 +394,7 @@ fn run_case(rng: &mut Rng) -> Out {
         let k = 1 + rng.usize(n_peers);
         let pk = rig.peer(k);
         let t = TOPICS[rng.usize(3)];
-        let op = rng.weighted(&[14, 5, 12, 8, 8, 6, 10, 6, 4, 5, 3, 3, 6, 4, 4]);
+        let op = rng.weighted(&[14, 5, 12, 8, 8, 6, 10, 6, 4, 5, 3, 3, 6, 4, 4, 5]);
         sig.push_u64(op as u64 * 16 + k as u64);
         let send = |rig: &mut Rig, mon: &Rc<RefCell<Mon>>, k: usize, rpc: Rpc| {
             let pk = rig.peer(k);
@@ -526,6 +535,13 @@ fn run_case(rng: &mut Rng) -> Out {
                     describe = "noop".into();
                 }
             }
+            15 => {
+                // IHAVE for a message nobody will ever deliver: the node asks for it (IWANT) and, when the promise is
+                // broken (3 s later, at a heartbeat), penalises the peer
+                ihave_seq += 1;
+                describe = format!("p{k}: IHAVE {t} [never delivered]");
+                send(&mut rig, &mon, k, Rpc { ihave: vec![(t.into(), vec![format!("ghost-{k}-{ihave_seq}").into_bytes()])], ..Default::default() });
+            }
             _ => {
                 // publish on a topic (fanout when not subscribed)
                 describe = format!("local publish {t}");
@@ -637,6 +653,10 @@ pub fn run_c28(args: &Args) -> i32 {
 }
 pub fn run_c29(args: &Args) -> i32 {
     run_common(args, "C29")
+}
+/// second stage of `./check C32` (the first is the BackoffStorage facade check in vc-gossipsub)
+pub fn run_c32(args: &Args) -> i32 {
+    run_common(args, "C32")
 }
 pub fn run_c35(args: &Args) -> i32 {
     run_common(args, "C35")
